@@ -442,7 +442,7 @@ def r05_5(ctx, verified: List[FunctionInfo]) -> None:
                              construct=f"{norm(s.node)[:80]} [{E.short}]", slice=res.describe())
                 else:
                     ctx.ok("R05.5", inst, "receiver <- " + ",".join(sorted({x.short for c in gated for x in c.callees if x in verified})))
-    ctx.count("R05.5", n, 20, "(entry, model call site) pairs")
+    ctx.count("R05.5", n, 50, "(entry, model call site) pairs")
 
 
 # ----------------------------------------------------------------------------------------------- R05.6 / R05.7
